@@ -22,9 +22,10 @@ def compile_program(src, flags=('--dump-go',)):
 
 # ----------------------------------------------------------------------------- O9.1 effect predicate
 class EffOracle:
-    """may this Go expression have an observable effect?  (Go spec: calls; integer division by a possibly-zero divisor.)
-    Index out of range and nil dereference are outside: goml never emits a raw Index outside its runtime helpers and its pointers are
-    never nil (stated assumptions).  A sub-tree the predicate never inspected counts as possibly effectful."""
+    """may this Go expression have an observable effect?  (Go spec: calls; integer division by a possibly-zero divisor; an index
+    expression - `vec_get(v, i)` / `array_get` are emitted as `v[i]`, which panics when i is out of range.)
+    Nil dereference is outside: goml's pointers are never nil (stated assumption).  A sub-tree the predicate never inspected counts as
+    possibly effectful."""
     def __init__(s, ex, GE, GS, GT, GB): s.ex, s.GE, s.GS, s.GT, s.GB = ex, GE, GS, GT, GB; s.why = None
     def variant(s, v):
         if isinstance(v, Agg): return v.idx, v.fields
@@ -53,7 +54,7 @@ class EffOracle:
             return s.expr(fd['lhs']) or s.expr(fd['rhs'])
         if n in ('UnaryOp', 'Cast'): return s.expr(fd['expr'])
         if n == 'FieldAccess': return s.expr(fd['obj'])
-        if n == 'Index': return s.expr(fd['array']) or s.expr(fd['index'])
+        if n == 'Index': s.why = 'index expression (out-of-range index fails at run time)'; return True
         if n == 'StructLiteral': return any(s.expr(x.fields[1]) for x in fd['fields'].items)
         if n == 'ArrayLiteral': return any(s.expr(x) for x in fd['elems'].items)
         if n == 'Block':
@@ -120,7 +121,7 @@ def ob_effect_predicate(r, tier, seed, depth):
                              ('Expr', 'Call', 'args'): lambda sp, ex, d, p: PyVec([]),
                              ('Expr', 'Call', 'func'): lambda sp, ex, d, p: mkbox(Agg(GE.key, GE.vindex('Var'), [mkstr(ex.choose([(True, n) for n in (CALLEES if depth <= 1 else CALLEES[:2] + CALLEES[3:4])])), Agg(GT.key, GT.vindex('TUnit'), [])]))})
     r.bounds = 'every goast::Expr of depth <= %d over all %d constructors, all binary/unary operators, result types %s, integer literals {0, 7}, lists of 0..1 elements (statement blocks empty), callee names %s' % (depth, len(GE.variants), leaf_ty, CALLEES if depth <= 1 else CALLEES[:2] + CALLEES[3:4])
-    r.assumptions = ['oracle (Go spec): a call, or an integer `/` whose divisor is not a non-zero literal, may have an observable effect; index-out-of-range and nil dereference are excluded: goml emits raw Index nodes only inside runtime helpers and never creates nil pointers',
+    r.assumptions = ['oracle (Go spec): a call, an integer `/` whose divisor is not a non-zero literal, or an index expression (vec_get / array_get are emitted as `v[i]`) may have an observable effect; nil dereference is excluded: goml never creates nil pointers',
                      'a sub-tree the predicate did not inspect is treated as possibly effectful']
     def entry(ex):
         h = [spec.root(ex, 'goast::Expr', tag='e')]
@@ -137,7 +138,7 @@ def ob_effect_predicate(r, tier, seed, depth):
         pure_says, may, why, desc = not p.value[0], p.value[1], p.value[2], p.value[3]
         if pure_says: r.nontrivial += 1
         if pure_says and may:
-            key = 'div-judged-pure' if why and 'division' in why else ('uninspected-subtree' if why and 'inspected' in why else 'effect-judged-pure')
+            key = 'div-judged-pure' if why and 'division' in why else ('index-judged-pure' if why and 'index expression' in why else ('uninspected-subtree' if why and 'inspected' in why else 'effect-judged-pure'))
             if key not in found: found[key] = (desc, why)
         elif len(r.samples) < 3 and pure_says: r.samples.append({'expr': desc, 'pure': True})
     for key, (desc, why) in found.items():
@@ -150,6 +151,11 @@ def ob_effect_predicate(r, tier, seed, depth):
                 ok = 'func main0' in go and '/' not in body.split('func main()')[0]
                 detail = 'goml program `let z: %s = zero(); let a = 10%s / z; string_println("after")`: emitted main0 %s: ' % (t, suf, 'contains no division' if ok else 'keeps the division') + body.split('func main()')[0][:300].replace('\n', ' | ')
                 if ok: break
+        if key == 'index-judged-pure':
+            src = 'fn main() -> unit {\n  let v: Vec[int32] = vec_new();\n  let a = vec_get(v, 3);\n  string_println("after")\n}\n'
+            go = compile_program(src); body = go[go.find('func main0'):].split('func main()')[0]
+            ok = 'func main0' in go and '[3]' not in body
+            detail = 'goml program `let v: Vec[int32] = vec_new(); let a = vec_get(v, 3); string_println("after")`: emitted main0 %s: ' % ('contains no index expression' if ok else 'keeps v[3]') + body[:300].replace('\n', ' | ')
         if key == 'effect-judged-pure':
             import re as _re
             m_ = _re.search(r"Expr#3\['([A-Za-z_][A-Za-z0-9_]*)'", json.dumps(desc))
